@@ -17,6 +17,7 @@ import (
 )
 
 const c02Now = 1900000000 // kitNow under the engine
+const c02SigningTime = 1700000000
 
 // c02Time maps a drawn second to an instant: under the engine the value itself, natively an instant on
 // the same side of the real clock.
@@ -101,6 +102,7 @@ type c02World struct {
 	notAfter   int64
 	revResult  int64
 	revErr     bool
+	sa         bool // signing-authority scheme: the chain is judged at the authentic signing time
 	extShape   int // 0 none, 1 critical non-plugin attribute, 2 non-critical attribute, 3 critical attribute with non-string key
 	pluginAttr int // 0 none, see c02Plugin
 }
@@ -114,6 +116,7 @@ func c02DrawWorld(full bool) c02World {
 		w.noExpiry = vr.Bool("expiry.none")
 		w.expirySec = int64(vr.Int("expiry.sec", 1, 4000000000))
 		w.notAfter = int64(vr.Int("leaf.notAfter", 1000000000, 4000000000))
+		w.sa = vr.Bool("scheme.signingAuthority")
 	} else {
 		// expiry and certificate validity do not interact with the plugin: kept passing
 		w.noExpiry = true
@@ -156,7 +159,14 @@ func c02Verify(w *c02World, lv c02Level, attrs []signature.Attribute, mgr *kitMa
 	leaf.Subject.Organization = []string{"a"}
 	leaf.NotBefore = time.Unix(946684800, 0)
 	leaf.NotAfter = c02Time(w.notAfter)
-	sa := signature.SignedAttributes{SigningScheme: signature.SigningSchemeX509, SigningTime: time.Unix(1700000000, 0), ExtendedAttributes: attrs}
+	storeKey := "ca:s"
+	sa := signature.SignedAttributes{SigningScheme: signature.SigningSchemeX509, SigningTime: time.Unix(c02SigningTime, 0), ExtendedAttributes: attrs}
+	if w.sa {
+		// the reference instant is the (fixed) signing time in both modes: no mapping to the real clock
+		sa.SigningScheme = signature.SigningSchemeX509SigningAuthority
+		storeKey = "signingAuthority:s"
+		leaf.NotAfter = time.Unix(w.notAfter, 0)
+	}
 	if !w.noExpiry {
 		sa.Expiry = c02Time(w.expirySec)
 	}
@@ -167,7 +177,7 @@ func c02Verify(w *c02World, lv c02Level, attrs []signature.Attribute, mgr *kitMa
 	run := c02Run{plug: plug, mgr: mgr}
 	run.validator = &kitValidator{err: w.revErr, results: []*revocationresult.CertRevocationResult{{Result: revocationresult.Result(w.revResult)}}}
 	run.store = &c02Store{w: w, leaf: leaf}
-	opts := VerifierOptions{OCITrustPolicy: kitOCIDoc(lv.base, lv.ov, []string{"ca:s"}, []string{"x509.subject:C=US,ST=WA,O=" + string([]byte{w.idByte})}),
+	opts := VerifierOptions{OCITrustPolicy: kitOCIDoc(lv.base, lv.ov, []string{storeKey}, []string{"x509.subject:C=US,ST=WA,O=" + string([]byte{w.idByte})}),
 		RevocationCodeSigningValidator: run.validator, RevocationTimestampingValidator: &kitValidator{}}
 	if mgr != nil {
 		opts.PluginManager = mgr
@@ -186,7 +196,12 @@ func (w *c02World) idFail() bool   { return w.idByte != 'a' }
 func (w *c02World) expFail() bool {
 	return vr.And(vr.Not(w.noExpiry), w.expirySec <= c02Now)
 }
-func (w *c02World) tsFail() bool { return w.notAfter < c02Now }
+func (w *c02World) tsFail() bool {
+	if w.sa {
+		return w.notAfter < c02SigningTime
+	}
+	return w.notAfter < c02Now
+}
 func (w *c02World) revFail() bool {
 	return vr.Or(w.revErr, vr.Not(vr.Or(w.revResult == int64(revocationresult.ResultOK), w.revResult == int64(revocationresult.ResultNonRevokable))))
 }
